@@ -232,8 +232,7 @@ def check(ctx: Ctx, cases: List[dict]) -> None:
         want_body = "" if suppress else "".join(case["chunks"])
         want_trailers = flat_trailers(case) if (case["proto"] == "2" and case["te"]) else []
         if want_trailers:
-            # the input class of known finding F80 (everything that goes wrong on such a connection has that one cause)
-            sig["trailers_with_te"] = True
+            sig["trailers_with_te"] = True     # (the input class of finding F80, repaired in 6e9f4aa)
         if len(o["views"]) != case.get("streams", 1):
             ctx.violation("end_exactly_once", case, {"streams_seen": len(o["views"])}, sig)
         for v in o["views"]:
@@ -263,19 +262,14 @@ def check(ctx: Ctx, cases: List[dict]) -> None:
                 ctx.disagreements_checked += 1
                 m = model[i].get("ok")
                 ok = m is not None and len(m["heads"]) == 1
-                if ok and want_trailers and [h for t in m["trailers"] for h in t] == want_trailers and (v.get("trailers") or []) != want_trailers:
-                    # known finding F80 (reported by the monitor above): the stream model hands the protocol the trailers,
-                    # the H2 protocol layer - not part of this model - loses them and damages the connection; what the
-                    # client then sees says nothing about the stream model
-                    ctx.count("correspondence", "client view not compared (F80 input)")
-                    continue
                 ok = ok and m["heads"][0][0] == v["status"] and m["body"] == v["body"] and m["ends"] == (1 if v["complete"] else 0)
                 if ok and v["headers"] is not None:
                     got = [h for h in v["headers"] if h[0].lower() not in HOP]
                     ok = got[:len(m["heads"][0][1])] == m["heads"][0][1]
                 if ok:
-                    # the stream model hands the protocol exactly the trailers the statement allows
-                    ok = [h for t in m["trailers"] for h in t] == want_trailers
+                    # the stream model hands the protocol exactly the trailers the statement allows, and the client gets them
+                    # (HTTP/2 has one trailing block: the messages' trailers joined)
+                    ok = [h for t in m["trailers"] for h in t] == want_trailers == (v.get("trailers") or [])
                 if not ok:
                     ctx.disagree("stream.http_view", case, {k: (m[k] if k != "body" else len(m[k])) for k in (m or {})},
                                  {k: (v[k] if k != "body" else len(v[k])) for k in v})
